@@ -1,5 +1,6 @@
 import RoaringModel.Safe
 import RoaringModel.MultiOps
+import RoaringModel.Ops
 
 /-!
 # Arithmetic / indexing side conditions of the by-reference `&=` and `-=` and of the multi-operand folds over them
@@ -42,9 +43,29 @@ instance : ∀ (s t : Store), Decidable (Safe_subAssignRef s t)
   | .bitmap a, .bitmap b => by unfold Safe_subAssignRef; infer_instance
   | .array v, .bitmap b => by unfold Safe_subAssignRef; infer_instance
 
+/-- store/mod.rs:307-327 `BitOrAssign<&Store> for Store` -/
+def Safe_orAssignRef : Store → Store → Prop
+  | .array _, .array _ => True                                      -- :310-313 `mem::take` + scalar `or` visitor
+  | .bitmap a, .array v => a.Safe_orArr v                            -- :315 → bitmap_store.rs:648-657
+  | .bitmap a, .bitmap b => BStore.Safe_opBitmaps (· ||| ·) a b       -- :318 → bitmap_store.rs:644 → :634-640
+  | .array v, .bitmap b => b.Safe_orArr v                            -- :320-324 `lhs = Bitmap(bits2.clone()); lhs |= &*this`
+
+instance : ∀ (s t : Store), Decidable (Safe_orAssignRef s t)
+  | .array _, .array _ => isTrue trivial
+  | .bitmap a, .array v => by unfold Safe_orAssignRef; infer_instance
+  | .bitmap a, .bitmap b => by unfold Safe_orAssignRef; infer_instance
+  | .array v, .bitmap b => by unfold Safe_orAssignRef; infer_instance
+
 end Store
 
 namespace Container
+
+/-- container.rs:211-216 `BitOrAssign<&Container>`: the store-level `|=`, then `ensure_correct_store` on what it left -/
+def Safe_orAssignRef (a b : Container) : Prop :=
+  a.store.Safe_orAssignRef b.store
+  ∧ Safe_ensureCorrectStore { a with store := a.store.orAssignRef b.store }
+
+instance (a b : Container) : Decidable (Safe_orAssignRef a b) := by unfold Safe_orAssignRef; infer_instance
 
 /-- container.rs:236-241 `BitAndAssign<&Container>`: the store-level `&=`, then `ensure_correct_store` on what it left -/
 def Safe_andAssignRef (a b : Container) : Prop :=
@@ -100,6 +121,31 @@ instance (a b : Bitmap) : Decidable (Safe_andAR a b) := by unfold Safe_andAR; in
 /-- ops.rs:336-349 `a -= &b` (also `a -= b`, `a - b`, `a - &b`: ops.rs:275-334 forward here) -/
 def Safe_subAR (a b : Bitmap) : Prop := ∀ cont ∈ a, Safe_searchStep Container.Safe_subAssignRef b cont
 instance (a b : Bitmap) : Decidable (Safe_subAR a b) := by unfold Safe_subAR; infer_instance
+
+/-- ops.rs:174-185 `a |= &b`: every iteration of `for container in &rhs.containers` on the `self` the iterations before
+    left: `Err(loc)` ⇒ `loc ≤ len` for `Vec::insert`, `Ok(loc)` ⇒ `loc < len` for `&mut self.containers[loc]` (:179-181),
+    then the container-level `|=` -/
+def Safe_orAR : Bitmap → List Container → Prop
+  | _, [] => True
+  | self, c :: cs =>
+    Safe_search self c.key
+    ∧ (match search self c.key with
+       | (true, loc) =>
+         (match self[loc]? with
+          | some x => Container.Safe_orAssignRef x c
+          | none => True)
+       | (false, _) => True)
+    ∧ Safe_orAR (orStep Container.orAssignRef self c) cs
+
+instance : ∀ (self : Bitmap) (cs : List Container), Decidable (Safe_orAR self cs)
+  | _, [] => isTrue trivial
+  | self, c :: cs => by
+    unfold Safe_orAR
+    have := instDecidableSafe_orAR (orStep Container.orAssignRef self c) cs
+    refine @instDecidableAnd _ _ _ (@instDecidableAnd _ _ ?_ _)
+    split
+    · split <;> infer_instance
+    · infer_instance
 
 end Bitmap
 
